@@ -374,5 +374,1654 @@ theorem transition_succeeds (s : Stages) (u : WorkUnit) (to : UnitState) (al : L
   refine ⟨by rw [hr.offset]; exact hseg, ?_, by rw [hr.nStages]; exact hstg⟩
   rw [hr.offset]; exact allocSegments_covers s u.seg hseg
 
+/-! ### frame relation: which cells an operation may change -/
+
+/-- `s'` is `s` with another matrix in which every cell outside `T` that was not Pending is unchanged -/
+structure Step (T : Nat → Nat → Prop) (s s' : Stages) : Prop where
+  rest  : Rest s s'
+  wf    : s.WF → s'.WF
+  frame : ∀ seg stg, ¬T seg stg → s.getState seg stg ≠ .pending → s'.getState seg stg = s.getState seg stg
+
+/-- only Pending cells changed -/
+abbrev PStep (s s' : Stages) : Prop := Step (fun _ _ => False) s s'
+
+theorem Step.refl (T : Nat → Nat → Prop) (s : Stages) : Step T s s := ⟨Rest.refl s, id, fun _ _ _ _ => rfl⟩
+
+theorem Step.trans {T : Nat → Nat → Prop} {a b c : Stages} (h1 : Step T a b) (h2 : Step T b c) : Step T a c := by
+  refine ⟨h1.rest.trans h2.rest, fun h => h2.wf (h1.wf h), ?_⟩
+  intro seg stg hT hp
+  have e1 := h1.frame seg stg hT hp
+  rw [h2.frame seg stg hT (by rw [e1]; exact hp), e1]
+
+theorem Step.mono {T T' : Nat → Nat → Prop} {a b : Stages} (h : Step T a b) (hTT : ∀ x y, T x y → T' x y) : Step T' a b :=
+  ⟨h.rest, h.wf, fun seg stg hT hp => h.frame seg stg (fun hc => hT (hTT _ _ hc)) hp⟩
+
+theorem allocSegments_pstep (s : Stages) (x : Nat) : PStep s (s.allocSegments x) :=
+  ⟨allocSegments_rest s x, allocSegments_wf s x, fun seg stg _ hp => getState_alloc_of_ne_pending s x seg stg hp⟩
+
+/-- a transition is a step whose only non-Pending change is its target -/
+theorem transition_step {s s' : Stages} {u : WorkUnit} {to : UnitState} {al : List UnitState}
+    (h : s.transition u to al = .ok s') : Step (fun seg stg => seg = u.seg ∧ stg = u.stage) s s' :=
+  ⟨transition_rest h, transition_wf h, fun seg stg hT hp => transition_frame h seg stg hT hp⟩
+
+/-- a transition from Pending is a step that changes Pending cells only -/
+theorem transition_pstep {s s' : Stages} {u : WorkUnit} {to : UnitState} {al : List UnitState}
+    (h : s.transition u to al = .ok s') (hp : s.getState u.seg u.stage = .pending) : PStep s s' := by
+  refine ⟨transition_rest h, transition_wf h, ?_⟩
+  intro seg stg _ hne
+  by_cases hc : seg = u.seg ∧ stg = u.stage
+  · rw [hc.1, hc.2] at hne; exact absurd hp hne
+  · exact transition_frame h seg stg hc hne
+
+/-! ### markShadowedUnits (patched): only Pending cells change -/
+
+theorem markShadowedLoop_pstep (fix : Patch) (hf : fix.shadow = true) (seg : Nat) :
+    ∀ (k : Nat) (s : Stages) (sh : Bool) (s' : Stages) (sh' : Bool), s.WF →
+      markShadowedLoop fix seg k s sh = .ok (s', sh') → PStep s s' := by
+  intro k
+  induction k with
+  | zero =>
+    intro s sh s' sh' _ h
+    simp only [markShadowedLoop] at h
+    injection h with h; injection h with h1 h2; subst h1
+    exact Step.refl _ _
+  | succ k ih =>
+    intro s sh s' sh' hw h
+    simp only [markShadowedLoop] at h
+    split at h
+    · injection h with h; injection h with h1 h2; subst h1; exact Step.refl _ _
+    · split at h
+      · rename_i hc
+        -- the unit gets shadowed
+        split at h
+        · cases h
+        · rename_i s1 hs1
+          have hA : s.getState seg k = .pending ∨ s.getState seg k = .shadowed := by
+            unfold shadowCond at hc
+            simp only [hf, if_true, Bool.and_eq_true, Bool.or_eq_true, beq_iff_eq] at hc
+            exact hc.1
+          have step1 : PStep s s1 := by
+            refine ⟨setState_rest hs1, fun _ => setState_wf hs1 hw, ?_⟩
+            intro seg' stg' _ hp
+            by_cases hcell : seg' = seg ∧ stg' = k
+            · rw [hcell.1, hcell.2] at hp ⊢
+              rcases hA with hA | hA
+              · exact absurd hA hp
+              · rw [getState_setState_same hs1 hw, hA]
+                split
+                · rename_i hb
+                  -- below the stage's first segment the cell reads NoOp, not Shadowed
+                  exfalso
+                  have hok := (setState_ok_iff _ _ _ _).1 ⟨s1, hs1⟩
+                  have : s.getState seg k = .noOp := by
+                    unfold getState
+                    have h1 : ¬ seg ≥ s.offset + s.states.length := by omega
+                    rw [if_neg h1, if_pos (Or.inr hb)]
+                  rw [this] at hA; cases hA
+                · rfl
+            · exact getState_setState_other hs1 seg' stg' hcell
+          exact step1.trans (ih s1 true s' sh' (setState_wf hs1 hw) h)
+      · exact ih s sh s' sh' hw h
+
+theorem markShadowedUnits_pstep (fix : Patch) (hf : fix.shadow = true) (s : Stages) (seg : Nat) (s' : Stages) (sh : Bool)
+    (hw : s.WF) (h : s.markShadowedUnits fix seg = .ok (s', sh)) : PStep s s' := by
+  unfold markShadowedUnits at h
+  split at h
+  · injection h with h; injection h with h1 h2; subst h1; exact Step.refl _ _
+  · exact (allocSegments_pstep s seg).trans
+      (markShadowedLoop_pstep fix hf seg _ _ _ _ _ (allocSegments_wf s seg hw) h)
+
+/-- `markShadowedUnits` leaves the row of its segment allocated when it reports a shadowed unit -/
+theorem markShadowedLoop_length (fix : Patch) (seg : Nat) :
+    ∀ (k : Nat) (s : Stages) (sh : Bool) (s' : Stages) (sh' : Bool),
+      markShadowedLoop fix seg k s sh = .ok (s', sh') → s'.states.length = s.states.length ∧ (sh' = true → sh = true ∨ True) := by
+  intro k
+  induction k with
+  | zero =>
+    intro s sh s' sh' h
+    simp only [markShadowedLoop] at h
+    injection h with h; injection h with h1 h2; subst h1; exact ⟨rfl, fun _ => Or.inr trivial⟩
+  | succ k ih =>
+    intro s sh s' sh' h
+    simp only [markShadowedLoop] at h
+    split at h
+    · injection h with h; injection h with h1 h2; subst h1; exact ⟨rfl, fun _ => Or.inr trivial⟩
+    · split at h
+      · split at h
+        · cases h
+        · rename_i s1 hs1
+          have := ih s1 true s' sh' h
+          exact ⟨by rw [this.1, setState_length hs1], fun _ => Or.inr trivial⟩
+      · exact ⟨(ih s sh s' sh' h).1, fun _ => Or.inr trivial⟩
+
+theorem markShadowedUnits_allocated (fix : Patch) (s : Stages) (seg : Nat) (s' : Stages) (sh : Bool) (ho : s.offset ≤ seg)
+    (h : s.markShadowedUnits fix seg = .ok (s', sh)) (hsh : sh = true) : seg - s'.offset < s'.states.length := by
+  unfold markShadowedUnits at h
+  split at h
+  · injection h with h; injection h with h1 h2; subst h2; cases hsh
+  · have hl := (markShadowedLoop_length fix seg _ _ _ _ _ h).1
+    have hr := allocSegments_rest s seg
+    have hcov := allocSegments_covers s seg ho
+    have hoff : s'.offset = s.offset := by
+      -- the loop only sets states
+      have : ∀ (k : Nat) (a : Stages) (b : Bool) (a' : Stages) (b' : Bool),
+          markShadowedLoop fix seg k a b = .ok (a', b') → a'.offset = a.offset := by
+        intro k
+        induction k with
+        | zero => intro a b a' b' h; simp only [markShadowedLoop] at h; injection h with h; injection h with h1 _; subst h1; rfl
+        | succ k ih =>
+          intro a b a' b' h
+          simp only [markShadowedLoop] at h
+          split at h
+          · injection h with h; injection h with h1 _; subst h1; rfl
+          · split at h
+            · split at h
+              · cases h
+              · rename_i a1 ha1; rw [ih a1 true a' b' h, (setState_rest ha1).offset]
+            · exact ih a b a' b' h
+      rw [this _ _ _ _ _ h, hr.offset]
+    rw [hoff, hl]; exact hcov
+
+/-! ### NextJob -/
+
+theorem firstPending_some (s : Stages) (seg : Nat) : ∀ (fuel i j : Nat), firstPending s seg fuel i = some j →
+    s.getState seg j = .pending ∧ i ≤ j ∧ j < i + fuel := by
+  intro fuel
+  induction fuel with
+  | zero => intro i j h; simp [firstPending] at h
+  | succ n ih =>
+    intro i j h
+    simp only [firstPending] at h
+    split at h
+    · injection h with h; subst h; rename_i hp; exact ⟨hp, Nat.le_refl _, by omega⟩
+    · have := ih (i + 1) j h; exact ⟨this.1, by omega, by omega⟩
+
+/-- no unit below `j` is Pending when `firstPending` answers `j` -/
+theorem firstPending_min (s : Stages) (seg : Nat) : ∀ (fuel i j : Nat), firstPending s seg fuel i = some j →
+    ∀ x, i ≤ x → x < j → s.getState seg x ≠ .pending := by
+  intro fuel
+  induction fuel with
+  | zero => intro i j h; simp [firstPending] at h
+  | succ n ih =>
+    intro i j h x h1 h2
+    simp only [firstPending] at h
+    split at h
+    · injection h with h; omega
+    · rename_i hp
+      by_cases hx : x = i
+      · subst hx; exact hp
+      · exact ih (i + 1) j h x (by omega) h2
+
+/-- what `NextJob` knows about the unit it hands out; `s0` is the matrix at the moment of the choice -/
+def Chosen (fix : Patch) (s s' : Stages) (u : WorkUnit) (r : Range) : Prop :=
+  ∃ (s0 : Stages) (k : Nat), PStep s s0 ∧ s0.WF ∧ k < s0.nStages ∧
+    s0.getState u.seg k = .pending ∧ dependenciesCompleted fix s0 ⟨u.seg, k⟩ = true ∧
+    (s0.stageAt k).seg.firstIndex ≤ u.seg ∧ u.seg ≤ (s0.stageAt k).seg.lastIndex ∧
+    (s0.stageAt k).seg.range? u.seg = some r ∧ r.stop - r.start ≠ 0 ∧
+    (u.stage = k ∨ (k + 1 = s0.nStages ∧ firstPending s0 u.seg s0.nStages 0 = some u.stage ∧
+      u.seg < s0.offset + s0.states.length)) ∧
+    s0.getState u.seg u.stage = .pending ∧ u.stage < s0.nStages ∧ s0.markSegmentScheduled u = .ok s'
+
+theorem nextJobStages_spec (fix : Patch) (seg : Nat) (sh : Bool) :
+    ∀ (k : Nat) (s : Stages) (res : StageStep), s.WF → k ≤ s.nStages →
+      (sh = true → seg < s.offset + s.states.length) → nextJobStages fix seg sh k s = .ok res →
+      match res with
+      | .next s' => PStep s s'
+      | .found s' u r => u.seg = seg ∧ Chosen fix s s' u r := by
+  intro k
+  induction k with
+  | zero =>
+    intro s res _ _ _ h
+    simp only [nextJobStages] at h
+    injection h with h; subst h
+    exact Step.refl _ _
+  | succ k ih =>
+    intro s res hw hk hal h
+    simp only [nextJobStages] at h
+    split at h
+    · exact ih s res hw (by omega) hal h
+    · rename_i hpend
+      have hpend : s.getState seg k = .pending := by simpa using hpend
+      split at h
+      · exact ih s res hw (by omega) hal h
+      · rename_i hfirst
+        split at h
+        · injection h with h; subst h; exact Step.refl _ _
+        · rename_i hlast
+          split at h
+          · exact ih s res hw (by omega) hal h
+          · rename_i hdeps
+            have hdeps : dependenciesCompleted fix s ⟨seg, k⟩ = true := by simpa using hdeps
+            split at h
+            · cases h
+            · rename_i r hr
+              split at h
+              · -- empty range: the unit is marked Completed and the loop goes on
+                split at h
+                · cases h
+                · rename_i s1 hs1
+                  have st1 : PStep s s1 := transition_pstep hs1 hpend
+                  have hal1 : sh = true → seg < s1.offset + s1.states.length := by
+                    intro hsh
+                    have := hal hsh
+                    rw [st1.rest.offset]
+                    have hlen : s.states.length ≤ s1.states.length := by
+                      rw [setState_length (transition_ok hs1).2]; exact allocSegments_length_le s seg
+                    omega
+                  have := ih s1 res (st1.wf hw) (by rw [st1.rest.nStages]; omega) hal1 h
+                  cases res with
+                  | next s' => exact st1.trans this
+                  | found s' u r' =>
+                    refine ⟨this.1, ?_⟩
+                    obtain ⟨s0, k0, hp0, rest⟩ := this.2
+                    exact ⟨s0, k0, st1.trans hp0, rest⟩
+              · rename_i hnonempty
+                have base : ∀ (i : Nat) (s' : Stages), (i = k ∨ (k + 1 = s.nStages ∧ firstPending s seg s.nStages 0 = some i ∧
+                      seg < s.offset + s.states.length)) →
+                    s.getState seg i = .pending → i < s.nStages → s.markSegmentScheduled ⟨seg, i⟩ = .ok s' →
+                    Chosen fix s s' ⟨seg, i⟩ r :=
+                  fun i s' hi hpi hlt hs' =>
+                    ⟨s, k, Step.refl _ _, hw, by omega, hpend, hdeps, Nat.le_of_not_lt hfirst, Nat.le_of_not_gt hlast, hr,
+                      hnonempty, hi, hpi, hlt, hs'⟩
+                split at h
+                · rename_i hsome
+                  split at h
+                  · rename_i i hi
+                    split at h
+                    · cases h
+                    · rename_i s' hs'
+                      injection h with h; subst h
+                      have hfp := firstPending_some s seg _ _ _ hi
+                      exact ⟨rfl, base i s' (Or.inr ⟨hsome.2, hi, hal hsome.1⟩) hfp.1 (by omega) hs'⟩
+                  · split at h
+                    · cases h
+                    · rename_i s' hs'
+                      injection h with h; subst h
+                      exact ⟨rfl, base k s' (Or.inl rfl) hpend (by omega) hs'⟩
+                · split at h
+                  · cases h
+                  · rename_i s' hs'
+                    injection h with h; subst h
+                    exact ⟨rfl, base k s' (Or.inl rfl) hpend (by omega) hs'⟩
+
+/-- postcondition of `NextJob` -/
+def JobPost (fix : Patch) (s s' : Stages) : Option (WorkUnit × Range) → Prop
+  | none => PStep s s'
+  | some (u, r) => Chosen fix s s' u r
+
+theorem nextJobSegs_spec (fix : Patch) (hf : fix.shadow = true) :
+    ∀ (fuel seg : Nat) (s s' : Stages) (res : Option (WorkUnit × Range)), s.WF → s.offset ≤ seg →
+      nextJobSegs fix fuel seg s = .ok (s', res) → JobPost fix s s' res := by
+  intro fuel
+  induction fuel with
+  | zero =>
+    intro seg s s' res _ _ h
+    simp only [nextJobSegs] at h
+    injection h with h; injection h with h1 h2; subst h1; subst h2
+    exact Step.refl _ _
+  | succ n ih =>
+    intro seg s s' res hw ho h
+    simp only [nextJobSegs] at h
+    have hall : ∀ (s1 : Stages) (sh : Bool), s.markShadowedUnits fix seg = .ok (s1, sh) → sh = true →
+        seg < s1.offset + s1.states.length := by
+      intro s1 sh hs1 hsh
+      have := markShadowedUnits_allocated fix s seg s1 sh ho hs1 hsh
+      have hoff : s1.offset ≤ seg := by rw [(markShadowedUnits_pstep fix hf s seg s1 sh hw hs1).rest.offset]; exact ho
+      omega
+    split at h
+    · cases h
+    · rename_i s1 sh hs1
+      have st1 := markShadowedUnits_pstep fix hf s seg s1 sh hw hs1
+      split at h
+      · cases h
+      · rename_i s2 u r hs2
+        injection h with h; injection h with h1 h2; subst h1; subst h2
+        have := nextJobStages_spec fix seg sh _ s1 _ (st1.wf hw) (Nat.le_refl _) (hall s1 sh hs1) hs2
+        obtain ⟨s0, k0, hp0, rest⟩ := this.2
+        exact ⟨s0, k0, st1.trans hp0, rest⟩
+      · rename_i s2 hs2
+        have st2 : PStep s1 s2 := nextJobStages_spec fix seg sh _ s1 _ (st1.wf hw) (Nat.le_refl _) (hall s1 sh hs1) hs2
+        have st12 := st1.trans st2
+        have := ih (seg + 1) s2 s' res (st12.wf hw) (by rw [st12.rest.offset]; omega) h
+        cases res with
+        | none => exact st12.trans this
+        | some p =>
+          obtain ⟨u, r⟩ := p
+          obtain ⟨s0, k0, hp0, rest⟩ := this
+          exact ⟨s0, k0, st12.trans hp0, rest⟩
+
+theorem nextJob_spec (fix : Patch) (hf : fix.shadow = true) (s s' : Stages) (res : Option (WorkUnit × Range)) (hw : s.WF)
+    (ho : s.offset ≤ s.globalSeg.firstIndex) (h : s.nextJob fix = .ok (s', res)) : JobPost fix s s' res :=
+  nextJobSegs_spec fix hf _ _ s s' res hw ho h
+
+/-- a unit that was chosen: the whole step from `s` to `s'` only changed Pending cells, the unit now is Scheduled
+and it was not Scheduled/Merging/... before -/
+theorem Chosen.pstep {fix : Patch} {s s' : Stages} {u : WorkUnit} {r : Range} (h : Chosen fix s s' u r) : PStep s s' := by
+  obtain ⟨s0, k, hp0, _, _, _, _, _, _, _, _, _, hpu, _, hs'⟩ := h
+  exact hp0.trans (transition_pstep hs' hpu)
+
+theorem Chosen.scheduled {fix : Patch} {s s' : Stages} {u : WorkUnit} {r : Range} (h : Chosen fix s s' u r) :
+    s'.getState u.seg u.stage = .scheduled := by
+  obtain ⟨s0, k, _, hw0, _, _, _, _, _, _, _, _, _, _, hs'⟩ := h
+  exact transition_target_eq hs' hw0 (by simp)
+
+theorem Chosen.was_pending {fix : Patch} {s s' : Stages} {u : WorkUnit} {r : Range} (h : Chosen fix s s' u r) :
+    s.getState u.seg u.stage = .pending := by
+  obtain ⟨s0, k, hp0, _, _, _, _, _, _, _, _, _, hpu, _, _⟩ := h
+  by_cases hc : s.getState u.seg u.stage = .pending
+  · exact hc
+  · have := hp0.frame u.seg u.stage (fun x => x) hc
+    rw [this] at hpu; exact absurd hpu hc
+
+/-! ### no panic in NextJob -/
+
+/-- every stage's segmenter is sane: positive interval, and either a non-empty block range or no segment at all
+(a stage that starts at or after the end of the range) -/
+def StagesOK (s : Stages) : Prop :=
+  ∀ st ∈ s.stages, 0 < st.seg.interval ∧ (st.seg.init < st.seg.end_ ∨ st.seg.lastIndex < st.seg.firstIndex)
+
+theorem stageAt_mem (s : Stages) (k : Nat) (hk : k < s.nStages) : s.stageAt k ∈ s.stages := by
+  unfold stageAt
+  rw [List.getD_eq_getElem?_getD, List.getElem?_eq_getElem hk]
+  exact List.getElem_mem _
+
+theorem StagesOK.range (s : Stages) (h : s.StagesOK) (k seg : Nat) (hk : k < s.nStages)
+    (h1 : (s.stageAt k).seg.firstIndex ≤ seg) (h2 : seg ≤ (s.stageAt k).seg.lastIndex) :
+    ∃ r, (s.stageAt k).seg.range? seg = some r := by
+  obtain ⟨hi, hr⟩ := h _ (stageAt_mem s k hk)
+  rcases hr with hr | hr
+  · exact ⟨_, Segmenter.range?_eq _ hi hr seg h1 h2⟩
+  · omega
+
+theorem Rest.stagesOK {s s' : Stages} (h : Rest s s') (ho : s.StagesOK) : s'.StagesOK := by
+  unfold StagesOK; rw [h.stages]; exact ho
+
+/-- a Pending cell at or above its stage's first segment is still Pending after the allocation of its row -/
+theorem getState_alloc_pending (s : Stages) (seg stg : Nat) (hp : s.getState seg stg = .pending)
+    (hoff : s.offset ≤ seg) (hfirst : (s.stageAt stg).seg.firstIndex ≤ seg) :
+    (s.allocSegments seg).getState seg stg = .pending := by
+  rcases getState_alloc s seg seg stg with h | ⟨_, h⟩
+  · rw [h, hp]
+  · exfalso
+    have hr := allocSegments_rest s seg
+    have hcov := allocSegments_covers s seg hoff
+    have hu' : (s.allocSegments seg).getState seg stg = (if seg ≥ s.offset + (s.allocSegments seg).states.length then .pending
+        else if seg < s.offset ∨ (s.stages ≠ [] ∧ seg < (s.stageAt stg).seg.firstIndex) then .noOp
+        else matGet (s.allocSegments seg).states (seg - s.offset) stg) := by
+      unfold getState; rw [hr.offset, hr.stages, hr.stageAt]
+    rw [hu'] at h
+    have h1 : ¬ seg ≥ s.offset + (s.allocSegments seg).states.length := by omega
+    have h2 : ¬ (seg < s.offset ∨ (s.stages ≠ [] ∧ seg < (s.stageAt stg).seg.firstIndex)) := by
+      intro hc; rcases hc with hc | hc <;> omega
+    rw [if_neg h1, if_neg h2] at h
+    by_cases h3 : seg ≥ s.offset + s.states.length
+    · rw [allocSegments_matGet_new s seg _ _ (by omega)] at h; cases h
+    · rw [allocSegments_matGet s seg _ _ (by omega)] at h
+      have : s.getState seg stg = matGet s.states (seg - s.offset) stg := by
+        unfold getState; rw [if_neg h3, if_neg h2]
+      rw [this, h] at hp; cases hp
+
+/-- a cell of an allocated row that reads Pending lies at or above its stage's first segment -/
+theorem first_le_of_pending_allocated (s : Stages) (seg stg : Nat) (hp : s.getState seg stg = .pending)
+    (hne : s.stages ≠ []) (hal : seg < s.offset + s.states.length) : (s.stageAt stg).seg.firstIndex ≤ seg := by
+  apply Nat.le_of_not_lt
+  intro hc
+  unfold getState at hp
+  have h1 : ¬ seg ≥ s.offset + s.states.length := by omega
+  rw [if_neg h1, if_pos (Or.inr ⟨hne, hc⟩)] at hp
+  cases hp
+
+theorem markShadowedLoop_ok (fix : Patch) (seg : Nat) :
+    ∀ (k : Nat) (s : Stages) (sh : Bool), s.offset ≤ seg → seg - s.offset < s.states.length → k ≤ s.nStages →
+      ∃ r, markShadowedLoop fix seg k s sh = .ok r := by
+  intro k
+  induction k with
+  | zero => intro s sh _ _ _; exact ⟨_, rfl⟩
+  | succ k ih =>
+    intro s sh ho hl hk
+    simp only [markShadowedLoop]
+    split
+    · exact ⟨_, rfl⟩
+    · split
+      · obtain ⟨s1, hs1⟩ := (setState_ok_iff s seg k .shadowed).2 ⟨ho, hl, by omega⟩
+        rw [hs1]
+        have hr := setState_rest hs1
+        exact ih s1 true (by rw [hr.offset]; exact ho) (by rw [hr.offset, setState_length hs1]; exact hl)
+          (by rw [hr.nStages]; omega)
+      · exact ih s sh ho hl (by omega)
+
+theorem markShadowedUnits_ok (fix : Patch) (s : Stages) (seg : Nat) (ho : s.offset ≤ seg) :
+    ∃ r, s.markShadowedUnits fix seg = .ok r := by
+  unfold markShadowedUnits
+  split
+  · exact ⟨_, rfl⟩
+  · have hr := allocSegments_rest s seg
+    exact markShadowedLoop_ok fix seg _ _ _ (by rw [hr.offset]; exact ho)
+      (by rw [hr.offset]; exact allocSegments_covers s seg ho) (by omega)
+
+theorem nextJobStages_ok (fix : Patch) (seg : Nat) (sh : Bool) :
+    ∀ (k : Nat) (s : Stages), s.WF → s.StagesOK → k ≤ s.nStages → s.offset ≤ seg →
+      (sh = true → seg - s.offset < s.states.length) → ∃ res, nextJobStages fix seg sh k s = .ok res := by
+  intro k
+  induction k with
+  | zero => intro s _ _ _ _ _; exact ⟨_, rfl⟩
+  | succ k ih =>
+    intro s hw hok hk ho hal
+    simp only [nextJobStages]
+    split
+    · exact ih s hw hok (by omega) ho hal
+    · rename_i hpend
+      have hpend : s.getState seg k = .pending := by simpa using hpend
+      split
+      · exact ih s hw hok (by omega) ho hal
+      · rename_i hfirst
+        split
+        · exact ⟨_, rfl⟩
+        · rename_i hlast
+          split
+          · exact ih s hw hok (by omega) ho hal
+          · obtain ⟨r, hr⟩ := StagesOK.range s hok k seg (by omega) (Nat.le_of_not_lt hfirst) (Nat.le_of_not_gt hlast)
+            rw [hr]
+            simp only
+            have hsched : ∀ i, i < s.nStages → s.getState seg i = .pending → (s.stageAt i).seg.firstIndex ≤ seg →
+                ∃ s', s.markSegmentScheduled ⟨seg, i⟩ = .ok s' := by
+              intro i hi hp hf
+              apply transition_succeeds s ⟨seg, i⟩ _ _ ho hi
+              rw [getState_alloc_pending s seg i hp ho hf]; simp
+            split
+            · -- empty range
+              obtain ⟨s1, hs1⟩ : ∃ s1, s.markSegmentCompleted ⟨seg, k⟩ = .ok s1 := by
+                have hk' : k < s.nStages := by omega
+                apply transition_succeeds s ⟨seg, k⟩ _ _ ho hk'
+                rw [getState_alloc_pending s seg k hpend ho (Nat.le_of_not_lt hfirst)]; simp
+              rw [hs1]
+              have st1 := transition_rest hs1
+              refine ih s1 (transition_wf hs1 hw) (st1.stagesOK hok) (by rw [st1.nStages]; omega) (by rw [st1.offset]; exact ho) ?_
+              intro hsh
+              have := hal hsh
+              rw [st1.offset]
+              have hlen : s.states.length ≤ s1.states.length := by
+                have h2 := (transition_ok hs1).2
+                rw [setState_length h2]; exact allocSegments_length_le s seg
+              omega
+            · split
+              · rename_i hsome
+                split
+                · rename_i i hi
+                  have hfp := firstPending_some s seg _ _ _ hi
+                  have hne : s.stages ≠ [] := by
+                    intro hc; have : s.nStages = 0 := by simp [Stages.nStages, hc]
+                    omega
+                  have hfi := first_le_of_pending_allocated s seg i hfp.1 hne (by have := hal hsome.1; omega)
+                  obtain ⟨s', hs'⟩ := hsched i (by omega) hfp.1 hfi
+                  rw [hs']; exact ⟨_, rfl⟩
+                · obtain ⟨s', hs'⟩ := hsched k (by omega) hpend (Nat.le_of_not_lt hfirst)
+                  rw [hs']; exact ⟨_, rfl⟩
+              · obtain ⟨s', hs'⟩ := hsched k (by omega) hpend (Nat.le_of_not_lt hfirst)
+                rw [hs']; exact ⟨_, rfl⟩
+
+theorem nextJobSegs_ok (fix : Patch) (hf : fix.shadow = true) :
+    ∀ (fuel seg : Nat) (s : Stages), s.WF → s.StagesOK → s.offset ≤ seg → ∃ res, nextJobSegs fix fuel seg s = .ok res := by
+  intro fuel
+  induction fuel with
+  | zero => intro seg s _ _ _; exact ⟨_, rfl⟩
+  | succ n ih =>
+    intro seg s hw hok ho
+    simp only [nextJobSegs]
+    obtain ⟨⟨s1, sh⟩, hs1⟩ := markShadowedUnits_ok fix s seg ho
+    rw [hs1]
+    simp only
+    have st1 := markShadowedUnits_pstep fix hf s seg s1 sh hw hs1
+    have ho1 : s1.offset ≤ seg := by rw [st1.rest.offset]; exact ho
+    obtain ⟨res, hres⟩ := nextJobStages_ok fix seg sh s1.nStages s1 (st1.wf hw) (st1.rest.stagesOK hok) (Nat.le_refl _) ho1
+      (fun hsh => markShadowedUnits_allocated fix s seg s1 sh ho hs1 hsh)
+    rw [hres]
+    cases res with
+    | found s2 u r => exact ⟨_, rfl⟩
+    | next s2 =>
+      simp only
+      have st2 : PStep s1 s2 := nextJobStages_spec fix seg sh _ s1 _ (st1.wf hw) (Nat.le_refl _)
+        (fun hsh => by have := markShadowedUnits_allocated fix s seg s1 sh ho hs1 hsh; omega) hres
+      have st12 := st1.trans st2
+      exact ih (seg + 1) s2 (st12.wf hw) (st12.rest.stagesOK hok) (by rw [st12.rest.offset]; omega)
+
+theorem nextJob_ok (fix : Patch) (hf : fix.shadow = true) (s : Stages) (hw : s.WF) (hok : s.StagesOK)
+    (ho : s.offset ≤ s.globalSeg.firstIndex) : ∃ res, s.nextJob fix = .ok res :=
+  nextJobSegs_ok fix hf _ _ s hw hok ho
+
+/-! ### steps with designated targets: every other cell is unchanged, or was Pending and now reads NoOp -/
+
+structure TStep (T : Nat → Nat → Prop) (s s' : Stages) : Prop where
+  rest  : Rest s s'
+  wf    : s.WF → s'.WF
+  frame : ∀ seg stg, ¬T seg stg →
+    s'.getState seg stg = s.getState seg stg ∨ (s.getState seg stg = .pending ∧ s'.getState seg stg = .noOp)
+
+theorem TStep.refl (T : Nat → Nat → Prop) (s : Stages) : TStep T s s := ⟨Rest.refl s, id, fun _ _ _ => Or.inl rfl⟩
+
+theorem TStep.trans {T : Nat → Nat → Prop} {a b c : Stages} (h1 : TStep T a b) (h2 : TStep T b c) : TStep T a c := by
+  refine ⟨h1.rest.trans h2.rest, fun h => h2.wf (h1.wf h), ?_⟩
+  intro seg stg hT
+  rcases h1.frame seg stg hT with e1 | ⟨e1, e1'⟩ <;> rcases h2.frame seg stg hT with e2 | ⟨e2, e2'⟩
+  · left; rw [e2, e1]
+  · right; exact ⟨by rw [← e1]; exact e2, e2'⟩
+  · right; exact ⟨e1, by rw [e2]; exact e1'⟩
+  · rw [e1'] at e2; cases e2
+
+theorem TStep.mono {T T' : Nat → Nat → Prop} {a b : Stages} (h : TStep T a b) (hTT : ∀ x y, T x y → T' x y) : TStep T' a b :=
+  ⟨h.rest, h.wf, fun seg stg hT => h.frame seg stg (fun hc => hT (hTT _ _ hc))⟩
+
+theorem TStep.step {T : Nat → Nat → Prop} {a b : Stages} (h : TStep T a b) : Step T a b := by
+  refine ⟨h.rest, h.wf, ?_⟩
+  intro seg stg hT hp
+  rcases h.frame seg stg hT with e | ⟨e, _⟩
+  · exact e
+  · exact absurd e hp
+
+theorem transition_tstep {s s' : Stages} {u : WorkUnit} {to : UnitState} {al : List UnitState}
+    (h : s.transition u to al = .ok s') : TStep (fun seg stg => seg = u.seg ∧ stg = u.stage) s s' :=
+  ⟨transition_rest h, transition_wf h, fun seg stg hT => transition_frame' h seg stg hT⟩
+
+/-- a cell whose answer is neither Pending nor NoOp is a real cell of the matrix -/
+theorem in_range_of_state (s : Stages) (hw : s.WF) (seg stg : Nat) (h1 : s.getState seg stg ≠ .pending)
+    (h2 : s.getState seg stg ≠ .noOp) : s.offset ≤ seg ∧ seg - s.offset < s.states.length ∧ stg < s.nStages := by
+  unfold getState at h1 h2
+  by_cases c1 : seg ≥ s.offset + s.states.length
+  · rw [if_pos c1] at h1; exact absurd rfl h1
+  · rw [if_neg c1] at h1 h2
+    by_cases c2 : seg < s.offset ∨ (s.stages ≠ [] ∧ seg < (s.stageAt stg).seg.firstIndex)
+    · rw [if_pos c2] at h2; exact absurd rfl h2
+    · rw [if_neg c2] at h1
+      refine ⟨by omega, by omega, ?_⟩
+      apply Nat.lt_of_not_le
+      intro hc
+      apply h1
+      unfold matGet
+      have hlen : seg - s.offset < s.states.length := by omega
+      have hrow : (s.states.getD (seg - s.offset) []) ∈ s.states := by
+        rw [List.getD_eq_getElem?_getD, List.getElem?_eq_getElem hlen]
+        exact List.getElem_mem _
+      have := hw _ hrow
+      rw [List.getD_eq_getElem?_getD (l := s.states.getD (seg - s.offset) []), List.getElem?_eq_none (by omega)]
+      rfl
+
+/-! ### MarkJobSuccess -/
+
+theorem jobSuccessLoop_tstep (seg : Nat) (T : Nat → Nat → Prop) :
+    ∀ (k : Nat) (s : Stages) (acc : List WorkUnit) (s' : Stages) (acc' : List WorkUnit) (s0 : Stages),
+      TStep T s0 s → (∀ stg, s0.getState seg stg = .shadowed → T seg stg) →
+      jobSuccessLoop seg k s acc = .ok (s', acc') → TStep T s0 s' := by
+  intro k
+  induction k with
+  | zero =>
+    intro s acc s' acc' s0 h0 _ h
+    simp only [jobSuccessLoop] at h
+    injection h with h; injection h with h1 _; subst h1; exact h0
+  | succ k ih =>
+    intro s acc s' acc' s0 h0 hT h
+    simp only [jobSuccessLoop] at h
+    split at h
+    · rename_i hsh
+      split at h
+      · cases h
+      · rename_i s1 hs1
+        have st1 : TStep T s s1 := by
+          refine ⟨transition_rest hs1, transition_wf hs1, ?_⟩
+          intro seg' stg' hTc
+          by_cases hc : seg' = seg ∧ stg' = k
+          · exfalso
+            rw [hc.1, hc.2] at hTc
+            -- the cell is Shadowed now, so it was Shadowed at the start, hence a target
+            rcases h0.frame seg k hTc with e | ⟨_, e⟩
+            · exact hTc (hT k (by rw [← e]; exact hsh))
+            · rw [e] at hsh; cases hsh
+          · exact transition_frame' hs1 seg' stg' hc
+        exact ih s1 _ s' acc' s0 (h0.trans st1) hT h
+    · exact ih s acc s' acc' s0 h0 hT h
+
+/-- `MarkJobSuccess(u)` touches the unit and the units of its segment that were Shadowed -/
+theorem markJobSuccess_tstep {s s' : Stages} {u : WorkUnit} {l : List WorkUnit} (h : s.markJobSuccess u = .ok (s', l)) :
+    TStep (fun seg stg => seg = u.seg ∧ (stg = u.stage ∨ s.getState seg stg = .shadowed)) s s' := by
+  unfold markJobSuccess at h
+  split at h
+  · cases h
+  · rename_i s1 hs1
+    have st1 : TStep (fun seg stg => seg = u.seg ∧ (stg = u.stage ∨ s.getState seg stg = .shadowed)) s s1 :=
+      (transition_tstep hs1).mono (fun x y hxy => ⟨hxy.1, Or.inl hxy.2⟩)
+    split at h
+    · exact jobSuccessLoop_tstep u.seg _ _ s1 _ s' l s st1 (fun stg hs => ⟨rfl, Or.inr hs⟩) h
+    · injection h with h; injection h with h1 _; subst h1; exact st1
+
+theorem jobSuccessLoop_ok (seg : Nat) :
+    ∀ (k : Nat) (s : Stages) (acc : List WorkUnit), s.WF → ∃ r, jobSuccessLoop seg k s acc = .ok r := by
+  intro k
+  induction k with
+  | zero => intro s acc _; exact ⟨_, rfl⟩
+  | succ k ih =>
+    intro s acc hw
+    simp only [jobSuccessLoop]
+    split
+    · rename_i hsh
+      have hr := in_range_of_state s hw seg k (by rw [hsh]; simp) (by rw [hsh]; simp)
+      obtain ⟨s1, hs1⟩ := transition_succeeds s ⟨seg, k⟩ .partialPresent [.shadowed] hr.1 hr.2.2
+        (by rw [getState_alloc_of_ne_pending s seg seg k (by rw [hsh]; simp), hsh]; simp)
+      rw [hs1]
+      exact ih s1 _ (transition_wf hs1 hw)
+    · exact ih s acc hw
+
+/-- `MarkJobSuccess` does not panic on a Scheduled unit -/
+theorem markJobSuccess_ok (s : Stages) (u : WorkUnit) (hw : s.WF) (hs : s.getState u.seg u.stage = .scheduled) :
+    ∃ r, s.markJobSuccess u = .ok r := by
+  unfold markJobSuccess
+  have hr := in_range_of_state s hw u.seg u.stage (by rw [hs]; simp) (by rw [hs]; simp)
+  obtain ⟨s1, hs1⟩ := transition_succeeds s u .partialPresent [.scheduled, .pending] hr.1 hr.2.2
+    (by rw [getState_alloc_of_ne_pending s u.seg u.seg u.stage (by rw [hs]; simp), hs]; simp)
+  unfold markSegmentPartialPresent
+  rw [hs1]
+  simp only
+  split
+  · exact jobSuccessLoop_ok u.seg _ s1 _ (transition_wf hs1 hw)
+  · exact ⟨_, rfl⟩
+
+/-- the unit is PartialPresent afterwards -/
+theorem markJobSuccess_target {s s' : Stages} {u : WorkUnit} {l : List WorkUnit} (h : s.markJobSuccess u = .ok (s', l))
+    (hw : s.WF) : s'.getState u.seg u.stage = .partialPresent := by
+  unfold markJobSuccess at h
+  split at h
+  · cases h
+  · rename_i s1 hs1
+    have e1 : s1.getState u.seg u.stage = .partialPresent := transition_target_eq hs1 hw (by simp)
+    split at h
+    · -- the loop only touches cells that are Shadowed
+      have : ∀ (k : Nat) (a : Stages) (acc : List WorkUnit) (a' : Stages) (acc' : List WorkUnit),
+          a.getState u.seg u.stage = .partialPresent → k ≤ u.stage →
+          jobSuccessLoop u.seg k a acc = .ok (a', acc') → a'.getState u.seg u.stage = .partialPresent := by
+        intro k
+        induction k with
+        | zero => intro a acc a' acc' ha _ h; simp only [jobSuccessLoop] at h; injection h with h; injection h with h1 _; subst h1; exact ha
+        | succ k ih =>
+          intro a acc a' acc' ha hk h
+          simp only [jobSuccessLoop] at h
+          split at h
+          · split at h
+            · cases h
+            · rename_i a1 ha1
+              refine ih a1 _ a' acc' ?_ (by omega) h
+              rw [transition_frame ha1 u.seg u.stage (by intro hc; have := hc.2; simp at this; omega) (by rw [ha]; simp)]
+              exact ha
+          · exact ih a acc a' acc' ha (by omega) h
+      exact this _ s1 _ s' l e1 (Nat.le_refl _) h
+    · injection h with h; injection h with h1 _; subst h1; exact e1
+
+/-! ### CmdTryMerge -/
+
+/-- what `CmdTryMerge` guarantees when it starts a merge -/
+theorem cmdTryMerge_merge {s s' : Stages} {i : Nat} {u : WorkUnit} (h : s.cmdTryMerge i = .ok (s', .merge u)) (hw : s.WF) :
+    u = ⟨(s.stageAt i).next, (s.stageAt i).idx⟩ ∧ (s.stageAt i).kind = .store ∧ u.seg ≤ (s.stageAt i).seg.lastIndex ∧
+    s.getState u.seg u.stage = .partialPresent ∧ s.previousUnitComplete u = true ∧
+    s'.getState u.seg u.stage = .merging ∧ TStep (fun seg stg => seg = u.seg ∧ stg = u.stage) s s' := by
+  unfold cmdTryMerge at h
+  split at h
+  · injection h with h; injection h with _ h2; cases h2
+  · simp only at h
+    split at h
+    · injection h with h; injection h with _ h2; cases h2
+    · rename_i hkind
+      split at h
+      · injection h with h; injection h with _ h2; cases h2
+      · rename_i hlast
+        split at h
+        · injection h with h; injection h with _ h2; cases h2
+        · rename_i hpp
+          split at h
+          · injection h with h; injection h with _ h2; cases h2
+          · rename_i hprev
+            split at h
+            · cases h
+            · rename_i s1 hs1
+              injection h with h; injection h with h1 h2
+              subst h1
+              injection h2 with h2
+              subst h2
+              unfold markSegmentMerging at hs1
+              split at hs1
+              · cases hs1
+              · refine ⟨rfl, by simpa using hkind, Nat.le_of_not_gt hlast, by simpa using hpp, by simpa using hprev,
+                  transition_target_eq hs1 hw (by simp), transition_tstep hs1⟩
+
+/-- in every other case the matrix is untouched -/
+theorem cmdTryMerge_other {s s' : Stages} {i : Nat} {t : TryMerge} (h : s.cmdTryMerge i = .ok (s', t))
+    (ht : ∀ u, t ≠ .merge u) : s' = s := by
+  unfold cmdTryMerge at h
+  split at h
+  · injection h with h; injection h with h1 _; exact h1.symm
+  · simp only at h
+    split at h
+    · injection h with h; injection h with h1 _; exact h1.symm
+    · split at h
+      · injection h with h; injection h with h1 _; exact h1.symm
+      · split at h
+        · injection h with h; injection h with h1 _; exact h1.symm
+        · split at h
+          · injection h with h; injection h with h1 _; exact h1.symm
+          · split at h
+            · cases h
+            · injection h with h; injection h with _ h2; exact absurd h2.symm (ht _)
+
+theorem cmdTryMerge_ok (s : Stages) (i : Nat) (hw : s.WF) : ∃ r, s.cmdTryMerge i = .ok r := by
+  unfold cmdTryMerge
+  split
+  · exact ⟨_, rfl⟩
+  · simp only
+    split
+    · exact ⟨_, rfl⟩
+    · split
+      · exact ⟨_, rfl⟩
+      · split
+        · exact ⟨_, rfl⟩
+        · rename_i hpp
+          split
+          · exact ⟨_, rfl⟩
+          · rename_i hprev
+            have hpp' : s.getState (s.stageAt i).next (s.stageAt i).idx = .partialPresent := by simpa using hpp
+            have hr := in_range_of_state s hw _ _ (by rw [hpp']; simp) (by rw [hpp']; simp)
+            have : ∃ s1, s.markSegmentMerging ⟨(s.stageAt i).next, (s.stageAt i).idx⟩ = .ok s1 := by
+              unfold markSegmentMerging
+              have hp : s.previousUnitComplete ⟨(s.stageAt i).next, (s.stageAt i).idx⟩ = true := by simpa using hprev
+              simp only [hp, Bool.not_true, Bool.false_eq_true, if_false]
+              apply transition_succeeds s _ _ _ hr.1 hr.2.2
+              rw [getState_alloc_of_ne_pending s _ _ _ (by rw [hpp']; simp), hpp']; simp
+            obtain ⟨s1, hs1⟩ := this
+            rw [hs1]; exact ⟨_, rfl⟩
+
+/-! ### setStage (only `next` and the module states change) -/
+
+theorem setStage_getState (s : Stages) (i : Nat) (st : Stage) (hseg : st.seg = (s.stageAt i).seg) (seg stg : Nat) :
+    (s.setStage i st).getState seg stg = s.getState seg stg := by
+  have hst : ∀ j, ((s.setStage i st).stageAt j).seg = (s.stageAt j).seg := by
+    intro j
+    unfold setStage stageAt
+    simp only [List.getD_eq_getElem?_getD, List.getElem?_set]
+    by_cases hij : i = j
+    · subst hij
+      by_cases hlt : i < s.stages.length
+      · simp only [hlt, if_true, Option.getD_some]
+        rw [hseg]; unfold stageAt; rw [List.getD_eq_getElem?_getD]
+      · simp [hlt, List.getElem?_eq_none (Nat.le_of_not_lt hlt)]
+    · simp [hij]
+  have hne : (s.setStage i st).stages ≠ [] ↔ s.stages ≠ [] := by
+    unfold setStage
+    simp only [ne_eq]
+    constructor
+    · intro h hc; apply h; rw [hc]; rfl
+    · intro h hc; apply h
+      have : (s.stages.set i st).length = 0 := by rw [hc]; rfl
+      rw [List.length_set] at this
+      exact List.eq_nil_of_length_eq_zero this
+  unfold getState
+  rw [hst stg]
+  show (if seg ≥ s.offset + s.states.length then UnitState.pending
+      else if seg < s.offset ∨ ((s.setStage i st).stages ≠ [] ∧ seg < (s.stageAt stg).seg.firstIndex) then .noOp
+      else matGet s.states (seg - s.offset) stg) = _
+  by_cases h1 : seg ≥ s.offset + s.states.length
+  · rw [if_pos h1, if_pos h1]
+  · rw [if_neg h1, if_neg h1]
+    by_cases h2 : seg < s.offset ∨ (s.stages ≠ [] ∧ seg < (s.stageAt stg).seg.firstIndex)
+    · rw [if_pos h2, if_pos (by rcases h2 with h2 | h2; exact Or.inl h2; exact Or.inr ⟨hne.2 h2.1, h2.2⟩)]
+    · rw [if_neg h2, if_neg (by intro hc; apply h2; rcases hc with hc | hc; exact Or.inl hc; exact Or.inr ⟨hne.1 hc.1, hc.2⟩)]
+
+theorem setStage_stageAt (s : Stages) (i j : Nat) (st : Stage) :
+    (s.setStage i st).stageAt j = if i = j ∧ i < s.nStages then st else s.stageAt j := by
+  unfold setStage stageAt nStages
+  simp only [List.getD_eq_getElem?_getD, List.getElem?_set]
+  by_cases hij : i = j
+  · subst hij
+    by_cases hlt : i < s.stages.length
+    · simp [hlt]
+    · simp [hlt, List.getElem?_eq_none (Nat.le_of_not_lt hlt)]
+  · simp [hij]
+
+theorem setStage_nStages (s : Stages) (i : Nat) (st : Stage) : (s.setStage i st).nStages = s.nStages := by
+  unfold setStage nStages; simp
+
+theorem setStage_wf (s : Stages) (i : Nat) (st : Stage) (hw : s.WF) : (s.setStage i st).WF := by
+  intro r hr
+  rw [setStage_nStages]; exact hw r hr
+
+theorem setStage_stagesOK (s : Stages) (i : Nat) (st : Stage) (hseg : st.seg = (s.stageAt i).seg) (hi : i < s.nStages)
+    (hok : s.StagesOK) : (s.setStage i st).StagesOK := by
+  intro x hx
+  unfold setStage at hx
+  simp only at hx
+  rcases List.mem_or_eq_of_mem_set hx with hx | hx
+  · exact hok x hx
+  · subst hx; rw [hseg]; exact hok _ (stageAt_mem s i hi)
+
+/-! ### MergeCompleted -/
+
+theorem moveForward_getState (s : Stages) (i seg stg : Nat) :
+    (s.moveSegmentCompletedForward i).getState seg stg = s.getState seg stg := by
+  unfold moveSegmentCompletedForward
+  simp only
+  apply setStage_getState
+  rfl
+
+theorem mergeCompleted_spec {s s' : Stages} {u : WorkUnit} (h : s.mergeCompleted u = .ok s') (hw : s.WF) :
+    ∃ s1, TStep (fun seg stg => seg = u.seg ∧ stg = u.stage) s s1 ∧ s1.WF ∧
+      (∀ seg stg, s'.getState seg stg = s1.getState seg stg) ∧ s'.offset = s.offset ∧ s'.globalSeg = s.globalSeg ∧
+      s'.nStages = s.nStages ∧ s'.WF ∧ (s.StagesOK → s'.StagesOK) ∧
+      (s.getState u.seg u.stage = .merging → s'.getState u.seg u.stage = .completed) := by
+  unfold mergeCompleted at h
+  split at h
+  · cases h
+  · rename_i s1 hs1
+    injection h with h; subst h
+    have st1 := transition_tstep hs1
+    have hw1 := transition_wf hs1 hw
+    have hget : ∀ seg stg, (s1.moveSegmentCompletedForward u.stage).getState seg stg = s1.getState seg stg :=
+      fun seg stg => moveForward_getState s1 _ seg stg
+    refine ⟨s1, st1, hw1, hget, ?_, ?_, ?_, ?_, ?_, ?_⟩
+    · unfold moveSegmentCompletedForward setStage; exact st1.rest.offset
+    · unfold moveSegmentCompletedForward setStage; exact st1.rest.globalSeg
+    · unfold moveSegmentCompletedForward; rw [setStage_nStages]; exact st1.rest.nStages
+    · unfold moveSegmentCompletedForward; exact setStage_wf _ _ _ hw1
+    · intro hok
+      have hok1 := st1.rest.stagesOK hok
+      unfold moveSegmentCompletedForward
+      by_cases hi : u.stage < s1.nStages
+      · exact setStage_stagesOK s1 _ _ rfl hi hok1
+      · -- out of range: `List.set` does nothing
+        intro x hx
+        unfold setStage at hx
+        simp only at hx
+        rw [List.set_eq_of_length_le (by unfold Stages.nStages at hi; omega)] at hx
+        exact hok1 x hx
+    · intro hm
+      rw [hget]
+      rcases transition_target hs1 hw with e | ⟨e, _⟩
+      · exact e
+      · -- the target reads NoOp after the transition: it lies below the stage's first segment, where it could not
+        -- have read Merging
+        exfalso
+        have h2 := (transition_ok hs1).2
+        have hsame := getState_setState_same h2 (allocSegments_wf s u.seg hw)
+        rw [e] at hsame
+        split at hsame
+        · rename_i hb
+          have hok := (setState_ok_iff _ _ _ _).1 ⟨s1, h2⟩
+          have ha := getState_alloc_of_ne_pending s u.seg u.seg u.stage (by rw [hm]; simp)
+          rw [hm] at ha
+          have : (s.allocSegments u.seg).getState u.seg u.stage = .noOp := by
+            unfold getState
+            have c1 : ¬ u.seg ≥ (s.allocSegments u.seg).offset + (s.allocSegments u.seg).states.length := by omega
+            rw [if_neg c1, if_pos (Or.inr hb)]
+          rw [this] at ha; cases ha
+        · cases hsame
+
+theorem mergeCompleted_eq {s s' : Stages} {u : WorkUnit} (h : s.mergeCompleted u = .ok s') :
+    ∃ s0, s.markSegmentCompleted u = .ok s0 ∧ s' = s0.moveSegmentCompletedForward u.stage := by
+  unfold mergeCompleted at h
+  split at h
+  · cases h
+  · rename_i s1 hs1
+    injection h with h
+    exact ⟨s1, hs1, h.symm⟩
+
+theorem moveForward_stageAt (s : Stages) (i j : Nat) :
+    ((s.moveSegmentCompletedForward i).stageAt j).idx = (s.stageAt j).idx ∧
+    ((s.moveSegmentCompletedForward i).stageAt j).kind = (s.stageAt j).kind ∧
+    ((s.moveSegmentCompletedForward i).stageAt j).seg = (s.stageAt j).seg ∧
+    (j ≠ i → ((s.moveSegmentCompletedForward i).stageAt j).next = (s.stageAt j).next) ∧
+    (s.moveSegmentCompletedForward i).nStages = s.nStages := by
+  unfold moveSegmentCompletedForward
+  simp only
+  rw [setStage_stageAt, setStage_nStages]
+  split
+  · rename_i hc
+    rw [← hc.1]
+    exact ⟨rfl, rfl, rfl, fun hne => absurd rfl hne, rfl⟩
+  · exact ⟨rfl, rfl, rfl, fun _ => rfl, rfl⟩
+
+/-- `MergeCompleted` does not panic on a Merging unit -/
+theorem mergeCompleted_ok (s : Stages) (u : WorkUnit) (hw : s.WF) (hm : s.getState u.seg u.stage = .merging) :
+    ∃ s', s.mergeCompleted u = .ok s' := by
+  unfold mergeCompleted
+  have hr := in_range_of_state s hw u.seg u.stage (by rw [hm]; simp) (by rw [hm]; simp)
+  obtain ⟨s1, hs1⟩ := transition_succeeds s u .completed [.pending, .merging, .scheduled, .shadowed, .noOp, .completed] hr.1 hr.2.2
+    (by rw [getState_alloc_of_ne_pending s u.seg u.seg u.stage (by rw [hm]; simp), hm]; simp)
+  unfold markSegmentCompleted
+  rw [hs1]; exact ⟨_, rfl⟩
+
+/-! ### the store stages sit at the position their `idx` says -/
+
+def IdxPos (s : Stages) : Prop := ∀ i, i < s.nStages → (s.stageAt i).kind = .store → (s.stageAt i).idx = i
+
+theorem setStage_idxPos (s : Stages) (i : Nat) (st : Stage) (h1 : st.idx = (s.stageAt i).idx) (h2 : st.kind = (s.stageAt i).kind)
+    (h : s.IdxPos) : (s.setStage i st).IdxPos := by
+  intro j hj hk
+  rw [setStage_nStages] at hj
+  rw [setStage_stageAt] at hk ⊢
+  split
+  · rename_i hc
+    rw [if_pos hc] at hk
+    rw [h1, ← hc.1]; exact h i hc.2 (by rw [← h2]; exact hk)
+  · rename_i hc
+    rw [if_neg hc] at hk
+    exact h j hj hk
+
+theorem Rest.idxPos {s s' : Stages} (h : Rest s s') (hi : s.IdxPos) : s'.IdxPos := by
+  intro j hj hk
+  rw [h.nStages] at hj
+  rw [h.stageAt] at hk ⊢
+  exact hi j hj hk
+
+theorem moveForward_idxPos (s : Stages) (i : Nat) (h : s.IdxPos) : (s.moveSegmentCompletedForward i).IdxPos := by
+  unfold moveSegmentCompletedForward
+  exact setStage_idxPos s i _ rfl rfl h
+
+/-! ### the initial state (`NewStages`, `FetchStoresState`) keeps the basic well-formedness -/
+
+/-- what every operation on `Stages` preserves -/
+structure Keep (s s' : Stages) : Prop where
+  wf     : s.WF → s'.WF
+  ok     : s.StagesOK → s'.StagesOK
+  offset : s'.offset = s.offset
+  global : s'.globalSeg = s.globalSeg
+  idx    : s.IdxPos → s'.IdxPos
+
+theorem Keep.refl (s : Stages) : Keep s s := ⟨id, id, rfl, rfl, id⟩
+theorem Keep.trans {a b c : Stages} (h1 : Keep a b) (h2 : Keep b c) : Keep a c :=
+  ⟨fun h => h2.wf (h1.wf h), fun h => h2.ok (h1.ok h), h2.offset.trans h1.offset, h2.global.trans h1.global,
+   fun h => h2.idx (h1.idx h)⟩
+
+theorem Keep.of_rest {s s' : Stages} (h : Rest s s') (hw : s.WF → s'.WF) : Keep s s' :=
+  ⟨hw, h.stagesOK, h.offset, h.globalSeg, h.idxPos⟩
+
+theorem transition_keep {s s' : Stages} {u : WorkUnit} {to : UnitState} {al : List UnitState}
+    (h : s.transition u to al = .ok s') : Keep s s' := Keep.of_rest (transition_rest h) (transition_wf h)
+
+theorem allocSet_keep {s s' : Stages} {i stg : Nat} {v : UnitState} (h : (s.allocSegments i).setState i stg v = .ok s') :
+    Keep s s' :=
+  Keep.of_rest ((allocSegments_rest s i).trans (setState_rest h)) (fun hw => setState_wf h (allocSegments_wf s i hw))
+
+theorem moveForward_keep (s : Stages) (i : Nat) : Keep s (s.moveSegmentCompletedForward i) := by
+  unfold moveSegmentCompletedForward
+  simp only
+  refine ⟨setStage_wf s i _, ?_, rfl, rfl, setStage_idxPos s i _ rfl rfl⟩
+  intro hok
+  by_cases hi : i < s.nStages
+  · exact setStage_stagesOK s i _ rfl hi hok
+  · intro x hx
+    unfold setStage at hx
+    simp only at hx
+    rw [List.set_eq_of_length_le (by unfold Stages.nStages at hi; omega)] at hx
+    exact hok x hx
+
+theorem setShadowable_keep (s : Stages) (x : Nat) : Keep s (s.setShadowableSegment x) := by
+  unfold setShadowableSegment
+  split <;> exact ⟨id, id, rfl, rfl, id⟩
+
+theorem noOpLoop_keep (stage : Nat) : ∀ (fuel i : Nat) (s s' : Stages), noOpLoop stage fuel i s = .ok s' → Keep s s' := by
+  intro fuel
+  induction fuel with
+  | zero => intro i s s' h; simp only [noOpLoop] at h; injection h with h; subst h; exact Keep.refl _
+  | succ n ih =>
+    intro i s s' h
+    simp only [noOpLoop] at h
+    split at h
+    · cases h
+    · rename_i s1 h1; exact (allocSet_keep h1).trans (ih _ _ _ h)
+
+theorem noOpStoresRow_keep (ls i : Nat) : ∀ (k : Nat) (s s' : Stages), noOpStoresRow ls i k s = .ok s' → Keep s s' := by
+  intro k
+  induction k with
+  | zero => intro s s' h; simp only [noOpStoresRow] at h; injection h with h; subst h; exact Keep.refl _
+  | succ n ih =>
+    intro s s' h
+    simp only [noOpStoresRow] at h
+    split at h
+    · exact ih _ _ h
+    · split at h
+      · cases h
+      · rename_i s1 h1; exact (allocSet_keep h1).trans (ih _ _ h)
+
+theorem noOpStoresLoop_keep (ls : Nat) : ∀ (fuel i : Nat) (s s' : Stages), noOpStoresLoop ls fuel i s = .ok s' → Keep s s' := by
+  intro fuel
+  induction fuel with
+  | zero => intro i s s' h; simp only [noOpStoresLoop] at h; injection h with h; subst h; exact Keep.refl _
+  | succ n ih =>
+    intro i s s' h
+    simp only [noOpStoresLoop] at h
+    split at h
+    · cases h
+    · rename_i s1 h1; exact (noOpStoresRow_keep ls i _ _ _ h1).trans (ih _ _ _ h)
+
+theorem fullsLoop_keep (segm : Segmenter) (st : Stage) (a b : Nat) (ms : Segmenter) :
+    ∀ (l : List StoreFile) (s : Stages) (cm : List (WorkUnit × List Nat)) (s' : Stages) (cm' : List (WorkUnit × List Nat)),
+      fullsLoop segm st a b ms l s cm = .ok (s', cm') → Keep s s' := by
+  intro l
+  induction l with
+  | nil => intro s cm s' cm' h; simp only [fullsLoop] at h; injection h with h; injection h with h1 _; subst h1; exact Keep.refl _
+  | cons f rest ih =>
+    intro s cm s' cm' h
+    simp only [fullsLoop] at h
+    split at h
+    · exact ih _ _ _ _ h
+    · split at h
+      · exact ih _ _ _ _ h
+      · split at h
+        · split at h
+          · cases h
+          · rename_i s1 h1; exact (transition_keep h1).trans (ih _ _ _ _ h)
+        · exact ih _ _ _ _ h
+
+theorem partialsLoop_keep (segm : Segmenter) (st : Stage) (a b : Nat) (ms : Segmenter) :
+    ∀ (l : List StoreFile) (s : Stages) (pm : List (WorkUnit × List Nat)) (s' : Stages) (pm' : List (WorkUnit × List Nat)),
+      partialsLoop segm st a b ms l s pm = .ok (s', pm') → Keep s s' := by
+  intro l
+  induction l with
+  | nil => intro s pm s' pm' h; simp only [partialsLoop] at h; injection h with h; injection h with h1 _; subst h1; exact Keep.refl _
+  | cons f rest ih =>
+    intro s pm s' pm' h
+    simp only [partialsLoop] at h
+    split at h
+    · exact ih _ _ _ _ h
+    · split at h
+      · exact ih _ _ _ _ h
+      · split at h
+        · exact ih _ _ _ _ h
+        · split at h
+          · split at h
+            · cases h
+            · rename_i s1 h1; exact (transition_keep h1).trans (ih _ _ _ _ h)
+          · exact ih _ _ _ _ h
+
+theorem fetchMods_keep (segm : Segmenter) (files : List StoreFile) (st : Stage) (si : Nat) :
+    ∀ (l : List ModState) (mp : Nat) (s : Stages) (cm pm : List (WorkUnit × List Nat)) (r : Stages × List (WorkUnit × List Nat) × List (WorkUnit × List Nat)),
+      fetchMods segm files st si l mp s cm pm = .ok r → Keep s r.1 := by
+  intro l
+  induction l with
+  | nil => intro mp s cm pm r h; simp only [fetchMods] at h; injection h with h; subst h; exact Keep.refl _
+  | cons m rest ih =>
+    intro mp s cm pm r h
+    simp only [fetchMods] at h
+    split at h
+    · cases h
+    · rename_i s1 cm1 h1
+      split at h
+      · cases h
+      · rename_i s2 pm1 h2
+        exact ((fullsLoop_keep _ _ _ _ _ _ _ _ _ _ h1).trans (partialsLoop_keep _ _ _ _ _ _ _ _ _ _ h2)).trans (ih _ _ _ _ _ h)
+
+theorem mapperLoop_keep (ms : Segmenter) (st : Stage) (si : Nat) :
+    ∀ (l : List OutFile) (s : Stages) (cm : List (WorkUnit × List Nat)) (s' : Stages) (cm' : List (WorkUnit × List Nat)),
+      mapperLoop ms st si l s cm = .ok (s', cm') → Keep s s' := by
+  intro l
+  induction l with
+  | nil => intro s cm s' cm' h; simp only [mapperLoop] at h; injection h with h; injection h with h1 _; subst h1; exact Keep.refl _
+  | cons f rest ih =>
+    intro s cm s' cm' h
+    simp only [mapperLoop] at h
+    split at h
+    · exact ih _ _ _ _ h
+    · split at h
+      · exact ih _ _ _ _ h
+      · split at h
+        · split at h
+          · cases h
+          · rename_i s1 h1; exact (transition_keep h1).trans (ih _ _ _ _ h)
+        · exact ih _ _ _ _ h
+
+theorem fetchStages_keep (segm : Segmenter) (files : Files) (mf : Option (List OutFile)) :
+    ∀ (fuel si : Nat) (s : Stages) (cm pm : List (WorkUnit × List Nat)) (s' : Stages),
+      fetchStages segm files mf fuel si s cm pm = .ok s' → Keep s s' := by
+  intro fuel
+  induction fuel with
+  | zero => intro si s cm pm s' h; simp only [fetchStages] at h; injection h with h; subst h; exact Keep.refl _
+  | succ n ih =>
+    intro si s cm pm s' h
+    simp only [fetchStages] at h
+    split at h
+    · split at h
+      · exact ih _ _ _ _ _ h
+      · split at h
+        · cases h
+        · split at h
+          · cases h
+          · split at h
+            · cases h
+            · rename_i s1 cm1 h1
+              exact (mapperLoop_keep _ _ _ _ _ _ _ _ h1).trans (ih _ _ _ _ _ h)
+    · split at h
+      · cases h
+      · rename_i s1 cm1 pm1 h1
+        exact ((fetchMods_keep _ _ _ _ _ _ _ _ _ _ h1).trans (moveForward_keep _ _)).trans (ih _ _ _ _ _ h)
+
+theorem fetchStoresState_keep {c : Cfg} {files : Files} {s s' : Stages} (h : fetchStoresState c files s = .ok s') : Keep s s' := by
+  unfold fetchStoresState at h
+  simp only at h
+  split at h
+  · cases h
+  · split at h
+    · cases h
+    · split at h
+      · cases h
+      · split at h
+        · cases h
+        · rename_i s1 h1
+          injection h with h; subst h
+          exact (fetchStages_keep _ _ _ _ _ _ _ _ _ h1).trans (setShadowable_keep _ _)
+
+/-- the stages built by `NewStages` are sane when the plan is -/
+theorem newStagesList_ok (c : Cfg) (hc : c.OK) : ∀ (l : List StageCfg) (idx : Nat), ∀ st ∈ newStagesList c l idx,
+    0 < st.seg.interval ∧ (st.seg.init < st.seg.end_ ∨ st.seg.lastIndex < st.seg.firstIndex) := by
+  intro l
+  induction l with
+  | nil => intro idx st h; simp [newStagesList] at h
+  | cons sc rest ih =>
+    intro idx st h
+    simp only [newStagesList] at h
+    split at h
+    · exact ih _ st h
+    · rename_i sg hsg
+      rcases List.mem_cons.1 h with h | h
+      · subst h
+        simp only
+        -- the segmenter comes from one of the two ranges of the plan
+        have hsgok : sg.interval = c.interval ∧ 0 < sg.end_ ∧ sg.end_ % c.interval = 0 := by
+          split at hsg
+          · unfold Cfg.writeOutSegmenter at hsg
+            cases hw : c.writeExecOut with
+            | none => rw [hw] at hsg; simp at hsg
+            | some r =>
+              rw [hw] at hsg; simp only [Option.map_some, Option.some.injEq] at hsg; subst hsg
+              exact ⟨rfl, hc.2.2.1 r hw⟩
+          · unfold Cfg.storesSegmenter at hsg
+            cases hw : c.buildStores with
+            | none => rw [hw] at hsg; simp at hsg
+            | some r =>
+              rw [hw] at hsg; simp only [Option.map_some, Option.some.injEq] at hsg; subst hsg
+              exact ⟨rfl, hc.2.1 r hw⟩
+        obtain ⟨hi, hpos, hmod⟩ := hsgok
+        refine ⟨by rw [hi]; exact hc.1, ?_⟩
+        generalize minList (sc.mods.headD 0) sc.mods = lowest
+        by_cases hlt : lowest < sg.end_
+        · left; exact hlt
+        · right
+          show (sg.end_ - 1) / sg.interval < lowest / sg.interval
+          rw [hi]
+          have hk := hc.1
+          -- end = q * k with q ≥ 1
+          have hq : sg.end_ = (sg.end_ / c.interval) * c.interval := by
+            have := Nat.div_add_mod sg.end_ c.interval
+            rw [hmod, Nat.add_zero, Nat.mul_comm] at this; exact this.symm
+          have hq1 : 1 ≤ sg.end_ / c.interval := by
+            apply Nat.le_of_not_lt; intro hc0
+            have : sg.end_ / c.interval = 0 := Nat.lt_one_iff.mp hc0
+            rw [this, Nat.zero_mul] at hq; omega
+          have h1 : (sg.end_ - 1) / c.interval < sg.end_ / c.interval := by
+            apply (Nat.div_lt_iff_lt_mul hk).2
+            rw [← hq]; omega
+          have h2 : sg.end_ / c.interval ≤ lowest / c.interval := Nat.div_le_div_right (Nat.le_of_not_lt hlt)
+          exact Nat.lt_of_lt_of_le h1 h2
+      · exact ih _ st h
+
+theorem initSegmentsOffset_base {c : Cfg} {s s' : Stages} (h : initSegmentsOffset c s = .ok s')
+    (hw : s.WF) (hok : s.StagesOK) (hidx : s.IdxPos) :
+    s'.WF ∧ s'.StagesOK ∧ s'.offset ≤ s'.globalSeg.firstIndex ∧ s'.IdxPos := by
+  unfold initSegmentsOffset at h
+  simp only at h
+  -- the state with the offset set
+  generalize hs0 : ({ s with offset := s.globalSeg.firstIndex } : Stages) = s0 at h
+  have hw0 : s0.WF := by subst hs0; exact hw
+  have hok0 : s0.StagesOK := by subst hs0; exact hok
+  have hoff0 : s0.offset ≤ s0.globalSeg.firstIndex := by subst hs0; exact Nat.le_refl _
+  have hidx0 : s0.IdxPos := by subst hs0; exact hidx
+  have fin : ∀ s1, Keep s0 s1 → ∀ s2, Keep s1 s2 → s2.WF ∧ s2.StagesOK ∧ s2.offset ≤ s2.globalSeg.firstIndex ∧ s2.IdxPos := by
+    intro s1 k1 s2 k2
+    have k := k1.trans k2
+    exact ⟨k.wf hw0, k.ok hok0, by rw [k.offset, k.global]; exact hoff0, k.idx hidx0⟩
+  split at h
+  · cases h
+  · rename_i s1 hr1
+    have k1 : Keep s0 s1 := by
+      split at hr1
+      · injection hr1 with hr1; subst hr1; exact Keep.refl _
+      · split at hr1
+        · cases hr1
+        · exact noOpLoop_keep _ _ _ _ _ hr1
+    split at h
+    · injection h with h; subst h; exact fin s1 k1 s1 (Keep.refl _)
+    · exact fin s1 k1 s' (noOpStoresLoop_keep _ _ _ _ _ h)
+
+/-- positions and `idx` of the store stages built by `NewStages` agree -/
+theorem newStagesList_idx (c : Cfg) : ∀ (l : List StageCfg) (idx : Nat),
+    (∀ i, i + 1 < l.length → (l.getD i ⟨.map, []⟩).kind = .store) →
+    ∀ j, j < (newStagesList c l idx).length → ((newStagesList c l idx).getD j default).kind = .store →
+      ((newStagesList c l idx).getD j default).idx = idx + j := by
+  intro l
+  induction l with
+  | nil => intro idx _ j hj; simp [newStagesList] at hj
+  | cons sc rest ih =>
+    intro idx hl j hj hk
+    have hrest : ∀ i, i + 1 < rest.length → (rest.getD i ⟨.map, []⟩).kind = .store := by
+      intro i hi
+      have := hl (i + 1) (by simp; omega)
+      simpa using this
+    cases hsegm : (if sc.kind = .map then c.writeOutSegmenter else c.storesSegmenter) with
+    | none =>
+      -- the stage is skipped
+      have hnone := hsegm
+      simp only [newStagesList, hsegm] at hj hk ⊢
+      by_cases hsk : sc.kind = .store
+      · -- a store stage is skipped: no store is kept at all
+        exfalso
+        have hstores : c.storesSegmenter = none := by
+          simp only [hsk] at hnone
+          simpa using hnone
+        have : ∀ (l' : List StageCfg) (n : Nat), ∀ x ∈ newStagesList c l' n, x.kind ≠ .store := by
+          intro l'
+          induction l' with
+          | nil => intro n x hx; simp [newStagesList] at hx
+          | cons a as iha =>
+            intro n x hx
+            simp only [newStagesList] at hx
+            split at hx
+            · exact iha _ x hx
+            · rename_i sg hsg
+              rcases List.mem_cons.1 hx with hx | hx
+              · subst hx
+                simp only
+                intro hka
+                simp only [hka] at hsg
+                rw [hstores] at hsg
+                simp at hsg
+              · exact iha _ x hx
+        have hmem : (newStagesList c rest (idx + 1)).getD j default ∈ newStagesList c rest (idx + 1) := by
+          rw [List.getD_eq_getElem?_getD, List.getElem?_eq_getElem hj]; exact List.getElem_mem _
+        exact this _ _ _ hmem hk
+      · -- a mapper stage is skipped: it is the last one
+        have : rest = [] := by
+          cases rest with
+          | nil => rfl
+          | cons r rs =>
+            exfalso
+            have := hl 0 (by simp)
+            simp at this
+            exact hsk this
+        subst this
+        simp [newStagesList] at hj
+    | some sg =>
+      simp only [newStagesList, hsegm] at hj hk ⊢
+      cases j with
+      | zero => simp
+      | succ j' =>
+        simp only [List.getD_cons_succ] at hk ⊢
+        simp only [List.length_cons] at hj
+        rw [ih (idx + 1) hrest j' (by omega) hk]
+        omega
+
+theorem initStages_base {c : Cfg} {files : Files} {s : Stages} (hc : c.OK) (h : initStages c files = .ok s) :
+    s.WF ∧ s.StagesOK ∧ s.offset ≤ s.globalSeg.firstIndex ∧ s.IdxPos := by
+  unfold initStages at h
+  split at h
+  · cases h
+  · rename_i s0 h0
+    unfold newStages at h0
+    split at h0
+    · cases h0
+    · rename_i g hg
+      have b0 := initSegmentsOffset_base h0 (by intro r hr; simp at hr)
+        (by intro st hst; exact newStagesList_ok c hc _ _ st hst)
+        (by
+          intro j hj hk
+          have := newStagesList_idx c c.graph 0 hc.2.2.2 j hj hk
+          rw [Nat.zero_add] at this
+          exact this)
+      have k := fetchStoresState_keep h
+      exact ⟨k.wf b0.1, k.ok b0.2.1, by rw [k.offset, k.global]; exact b0.2.2.1, k.idx b0.2.2.2⟩
+
+/-! ### units only move forward (patched `markShadowedUnits`) -/
+
+theorem getState_below_first (s : Stages) (seg stg : Nat) (h1 : s.offset ≤ seg) (h2 : seg - s.offset < s.states.length)
+    (hb : s.stages ≠ [] ∧ seg < (s.stageAt stg).seg.firstIndex) : s.getState seg stg = .noOp := by
+  unfold getState
+  have c1 : ¬ seg ≥ s.offset + s.states.length := by omega
+  rw [if_neg c1, if_pos (Or.inr hb)]
+
+/-- no cell's rank decreases -/
+def Mono (s s' : Stages) : Prop := ∀ seg stg, rank (s.getState seg stg) ≤ rank (s'.getState seg stg)
+
+theorem Mono.refl (s : Stages) : Mono s s := fun _ _ => Nat.le_refl _
+theorem Mono.trans {a b c : Stages} (h1 : Mono a b) (h2 : Mono b c) : Mono a c :=
+  fun seg stg => Nat.le_trans (h1 seg stg) (h2 seg stg)
+
+theorem Mono.of_eq {s s' : Stages} (h : ∀ seg stg, s'.getState seg stg = s.getState seg stg) : Mono s s' :=
+  fun seg stg => by rw [h]; exact Nat.le_refl _
+
+theorem allocSegments_mono (s : Stages) (x : Nat) : Mono s (s.allocSegments x) := by
+  intro seg stg
+  rcases getState_alloc s x seg stg with e | ⟨e1, e2⟩
+  · rw [e]; exact Nat.le_refl _
+  · rw [e1, e2]; exact Nat.le_refl _
+
+/-- a transition whose allowed previous states all rank at most the new state -/
+theorem transition_mono {s s' : Stages} {u : WorkUnit} {to : UnitState} {al : List UnitState}
+    (h : s.transition u to al = .ok s') (hw : s.WF) (hal : ∀ x ∈ al, rank x ≤ rank to) : Mono s s' := by
+  intro seg stg
+  by_cases hc : seg = u.seg ∧ stg = u.stage
+  · rw [hc.1, hc.2]
+    have h1 := (transition_ok h).1
+    rcases transition_target h hw with e | ⟨e, _⟩
+    · rw [e]
+      rcases getState_alloc s u.seg u.seg u.stage with ea | ⟨ea, _⟩
+      · rw [← ea]; exact hal _ h1
+      · rw [ea]; exact Nat.zero_le _
+    · -- the cell still reads NoOp: it read NoOp or Pending before
+      rw [e]
+      have h2 := (transition_ok h).2
+      have hsame := getState_setState_same h2 (allocSegments_wf s u.seg hw)
+      rw [e] at hsame
+      split at hsame
+      · rename_i hb
+        have hok := (setState_ok_iff _ _ _ _).1 ⟨s', h2⟩
+        have hn : (s.allocSegments u.seg).getState u.seg u.stage = .noOp := by
+          unfold getState
+          have c1 : ¬ u.seg ≥ (s.allocSegments u.seg).offset + (s.allocSegments u.seg).states.length := by omega
+          rw [if_neg c1, if_pos (Or.inr hb)]
+        rcases getState_alloc s u.seg u.seg u.stage with ea | ⟨ea, _⟩
+        · rw [← ea, hn]; exact Nat.le_refl _
+        · rw [ea]; exact Nat.le_refl _
+      · -- `to = noOp`
+        have hto : rank to = rank UnitState.noOp := by rw [← hsame]
+        rw [← hto]
+        rcases getState_alloc s u.seg u.seg u.stage with ea | ⟨ea, _⟩
+        · rw [← ea]; exact hal _ h1
+        · rw [ea]; exact Nat.zero_le _
+  · rcases transition_frame' h seg stg hc with e | ⟨e1, e2⟩
+    · rw [e]; exact Nat.le_refl _
+    · rw [e1, e2]; exact Nat.le_refl _
+
+theorem markSegmentCompleted_mono {s s' : Stages} {u : WorkUnit} (h : s.markSegmentCompleted u = .ok s') (hw : s.WF) : Mono s s' :=
+  transition_mono h hw (by intro x hx; simp at hx; rcases hx with h | h | h | h | h | h <;> subst h <;> simp [rank])
+theorem markSegmentScheduled_mono {s s' : Stages} {u : WorkUnit} (h : s.markSegmentScheduled u = .ok s') (hw : s.WF) : Mono s s' :=
+  transition_mono h hw (by intro x hx; simp at hx; subst hx; simp [rank])
+theorem markSegmentPartialPresent_mono {s s' : Stages} {u : WorkUnit} (h : s.markSegmentPartialPresent u = .ok s') (hw : s.WF) : Mono s s' :=
+  transition_mono h hw (by intro x hx; simp at hx; rcases hx with h | h <;> subst h <;> simp [rank])
+
+/-- PATCHED `markShadowedUnits`: a Pending or Shadowed cell becomes Shadowed -/
+theorem markShadowedLoop_mono (fix : Patch) (hf : fix.shadow = true) (seg : Nat) :
+    ∀ (k : Nat) (s : Stages) (sh : Bool) (s' : Stages) (sh' : Bool), s.WF →
+      markShadowedLoop fix seg k s sh = .ok (s', sh') → Mono s s' := by
+  intro k
+  induction k with
+  | zero =>
+    intro s sh s' sh' _ h
+    simp only [markShadowedLoop] at h
+    injection h with h; injection h with h1 _; subst h1; exact Mono.refl _
+  | succ k ih =>
+    intro s sh s' sh' hw h
+    simp only [markShadowedLoop] at h
+    split at h
+    · injection h with h; injection h with h1 _; subst h1; exact Mono.refl _
+    · split at h
+      · rename_i hc
+        split at h
+        · cases h
+        · rename_i s1 hs1
+          have hA : s.getState seg k = .pending ∨ s.getState seg k = .shadowed := by
+            unfold shadowCond at hc
+            simp only [hf, if_true, Bool.and_eq_true, Bool.or_eq_true, beq_iff_eq] at hc
+            exact hc.1
+          have m1 : Mono s s1 := by
+            intro seg' stg'
+            by_cases hcell : seg' = seg ∧ stg' = k
+            · rw [hcell.1, hcell.2, getState_setState_same hs1 hw]
+              have hok := (setState_ok_iff _ _ _ _).1 ⟨s1, hs1⟩
+              split
+              · rename_i hb
+                rw [getState_below_first s seg k hok.1 hok.2.1 hb]; exact Nat.le_refl _
+              · rcases hA with hA | hA <;> rw [hA] <;> simp [rank]
+            · rw [getState_setState_other hs1 seg' stg' hcell]; exact Nat.le_refl _
+          exact m1.trans (ih s1 true s' sh' (setState_wf hs1 hw) h)
+      · exact ih s sh s' sh' hw h
+
+theorem markShadowedUnits_mono (fix : Patch) (hf : fix.shadow = true) (s : Stages) (seg : Nat) (s' : Stages) (sh : Bool)
+    (hw : s.WF) (h : s.markShadowedUnits fix seg = .ok (s', sh)) : Mono s s' := by
+  unfold markShadowedUnits at h
+  split at h
+  · injection h with h; injection h with h1 _; subst h1; exact Mono.refl _
+  · exact (allocSegments_mono s seg).trans (markShadowedLoop_mono fix hf seg _ _ _ _ _ (allocSegments_wf s seg hw) h)
+
+theorem nextJobStages_mono (fix : Patch) (seg : Nat) (sh : Bool) :
+    ∀ (k : Nat) (s : Stages) (res : StageStep), s.WF → nextJobStages fix seg sh k s = .ok res →
+      match res with
+      | .next s' => Mono s s'
+      | .found s' _ _ => Mono s s' := by
+  intro k
+  induction k with
+  | zero =>
+    intro s res _ h
+    simp only [nextJobStages] at h
+    injection h with h; subst h; exact Mono.refl _
+  | succ k ih =>
+    intro s res hw h
+    simp only [nextJobStages] at h
+    split at h
+    · exact ih s res hw h
+    · split at h
+      · exact ih s res hw h
+      · split at h
+        · injection h with h; subst h; exact Mono.refl _
+        · split at h
+          · exact ih s res hw h
+          · split at h
+            · cases h
+            · split at h
+              · split at h
+                · cases h
+                · rename_i s1 hs1
+                  have m1 := markSegmentCompleted_mono hs1 hw
+                  have := ih s1 res (transition_wf hs1 hw) h
+                  cases res with
+                  | next s' => exact m1.trans this
+                  | found s' u r => exact m1.trans this
+              · split at h
+                · split at h
+                  · split at h
+                    · cases h
+                    · rename_i s' hs'; injection h with h; subst h; exact markSegmentScheduled_mono hs' hw
+                  · split at h
+                    · cases h
+                    · rename_i s' hs'; injection h with h; subst h; exact markSegmentScheduled_mono hs' hw
+                · split at h
+                  · cases h
+                  · rename_i s' hs'; injection h with h; subst h; exact markSegmentScheduled_mono hs' hw
+
+theorem nextJobSegs_mono (fix : Patch) (hf : fix.shadow = true) :
+    ∀ (fuel seg : Nat) (s s' : Stages) (res : Option (WorkUnit × Range)), s.WF →
+      nextJobSegs fix fuel seg s = .ok (s', res) → Mono s s' := by
+  intro fuel
+  induction fuel with
+  | zero =>
+    intro seg s s' res _ h
+    simp only [nextJobSegs] at h
+    injection h with h; injection h with h1 _; subst h1; exact Mono.refl _
+  | succ n ih =>
+    intro seg s s' res hw h
+    simp only [nextJobSegs] at h
+    split at h
+    · cases h
+    · rename_i s1 sh hs1
+      have m1 := markShadowedUnits_mono fix hf s seg s1 sh hw hs1
+      have hw1 := (markShadowedUnits_pstep fix hf s seg s1 sh hw hs1).wf hw
+      split at h
+      · cases h
+      · rename_i s2 u r hs2
+        injection h with h; injection h with h1 _; subst h1
+        exact m1.trans (nextJobStages_mono fix seg sh _ s1 _ hw1 hs2)
+      · rename_i s2 hs2
+        have m2 : Mono s1 s2 := nextJobStages_mono fix seg sh _ s1 _ hw1 hs2
+        -- well-formedness of s2: the loop only makes transitions
+        have hw2 : s2.WF := by
+          have : ∀ (k : Nat) (a : Stages) (res : StageStep), a.WF → nextJobStages fix seg sh k a = .ok res →
+              match res with | .next a' => a'.WF | .found a' _ _ => a'.WF := by
+            intro k
+            induction k with
+            | zero => intro a res ha h; simp only [nextJobStages] at h; injection h with h; subst h; exact ha
+            | succ k ihk =>
+              intro a res ha h
+              simp only [nextJobStages] at h
+              split at h
+              · exact ihk a res ha h
+              · split at h
+                · exact ihk a res ha h
+                · split at h
+                  · injection h with h; subst h; exact ha
+                  · split at h
+                    · exact ihk a res ha h
+                    · split at h
+                      · cases h
+                      · split at h
+                        · split at h
+                          · cases h
+                          · rename_i a1 ha1; exact ihk a1 res (transition_wf ha1 ha) h
+                        · split at h
+                          · split at h
+                            · split at h
+                              · cases h
+                              · rename_i a' ha'; injection h with h; subst h; exact transition_wf ha' ha
+                            · split at h
+                              · cases h
+                              · rename_i a' ha'; injection h with h; subst h; exact transition_wf ha' ha
+                          · split at h
+                            · cases h
+                            · rename_i a' ha'; injection h with h; subst h; exact transition_wf ha' ha
+          exact this _ s1 _ hw1 hs2
+        exact (m1.trans m2).trans (ih (seg + 1) s2 s' res hw2 h)
+
+theorem nextJob_mono (fix : Patch) (hf : fix.shadow = true) (s s' : Stages) (res : Option (WorkUnit × Range)) (hw : s.WF)
+    (h : s.nextJob fix = .ok (s', res)) : Mono s s' :=
+  nextJobSegs_mono fix hf _ _ s s' res hw h
+
+theorem jobSuccessLoop_mono (seg : Nat) :
+    ∀ (k : Nat) (s : Stages) (acc : List WorkUnit) (s' : Stages) (acc' : List WorkUnit), s.WF →
+      jobSuccessLoop seg k s acc = .ok (s', acc') → Mono s s' := by
+  intro k
+  induction k with
+  | zero => intro s acc s' acc' _ h; simp only [jobSuccessLoop] at h; injection h with h; injection h with h1 _; subst h1; exact Mono.refl _
+  | succ k ih =>
+    intro s acc s' acc' hw h
+    simp only [jobSuccessLoop] at h
+    split at h
+    · split at h
+      · cases h
+      · rename_i s1 hs1
+        exact (transition_mono hs1 hw (by intro x hx; simp at hx; subst hx; simp [rank])).trans
+          (ih s1 _ s' acc' (transition_wf hs1 hw) h)
+    · exact ih s acc s' acc' hw h
+
+theorem markJobSuccess_mono {s s' : Stages} {u : WorkUnit} {l : List WorkUnit} (h : s.markJobSuccess u = .ok (s', l)) (hw : s.WF) :
+    Mono s s' := by
+  unfold markJobSuccess at h
+  split at h
+  · cases h
+  · rename_i s1 hs1
+    have m1 := markSegmentPartialPresent_mono hs1 hw
+    split at h
+    · exact m1.trans (jobSuccessLoop_mono u.seg _ s1 _ s' l (transition_wf hs1 hw) h)
+    · injection h with h; injection h with h1 _; subst h1; exact m1
+
+theorem cmdTryMerge_mono {s s' : Stages} {i : Nat} {t : TryMerge} (h : s.cmdTryMerge i = .ok (s', t)) (hw : s.WF) : Mono s s' := by
+  cases t with
+  | merge u =>
+    have sp := cmdTryMerge_merge h hw
+    intro seg stg
+    by_cases hc : seg = u.seg ∧ stg = u.stage
+    · rw [hc.1, hc.2, sp.2.2.2.1, sp.2.2.2.2.2.1]; simp [rank]
+    · rcases sp.2.2.2.2.2.2.frame seg stg hc with e | ⟨e1, e2⟩
+      · rw [e]; exact Nat.le_refl _
+      · rw [e1, e2]; exact Nat.le_refl _
+  | allStoresCompleted => rw [cmdTryMerge_other h (by intro u; simp)]; exact Mono.refl _
+  | nothing => rw [cmdTryMerge_other h (by intro u; simp)]; exact Mono.refl _
+  | notReady u' => rw [cmdTryMerge_other h (by intro u; simp)]; exact Mono.refl _
+
+theorem mergeCompleted_mono {s s' : Stages} {u : WorkUnit} (h : s.mergeCompleted u = .ok s') (hw : s.WF) : Mono s s' := by
+  unfold mergeCompleted at h
+  split at h
+  · cases h
+  · rename_i s1 hs1
+    injection h with h; subst h
+    exact (markSegmentCompleted_mono hs1 hw).trans (Mono.of_eq (fun seg stg => moveForward_getState s1 _ seg stg))
+
+/-! ### the dependencies of a unit that was chosen (patched `dependenciesCompleted`) -/
+
+theorem depsLoopFix_spec (s : Stages) (seg : Nat) : ∀ (k : Nat), depsLoopFix s seg k = true →
+    ∀ i, i < k → (seg < (s.stageAt i).seg.firstIndex ∨
+      (((s.stageAt i).seg.firstIndex < seg → s.previousUnitComplete ⟨seg, i⟩ = true) ∧
+       (s.getState seg i = .completed ∨ s.getState seg i = .noOp ∨ s.getState seg i = .shadowed ∨
+        s.getState seg i = .partialPresent))) := by
+  intro k
+  induction k with
+  | zero => intro _ i hi; omega
+  | succ k ih =>
+    intro h i hi
+    simp only [depsLoopFix] at h
+    split at h
+    · rename_i hlt
+      by_cases hik : i = k
+      · subst hik; exact Or.inl hlt
+      · exact ih h i (by omega)
+    · rename_i hnlt
+      split at h
+      · cases h
+      · rename_i hprev
+        split at h
+        all_goals first
+          | (rename_i hst
+             by_cases hik : i = k
+             · subst hik
+               right
+               refine ⟨?_, by simp [hst]⟩
+               intro hgt
+               simp only [Bool.and_eq_true, decide_eq_true_eq, Bool.not_eq_true', not_and, Bool.not_eq_false] at hprev
+               exact hprev hgt
+             · exact ih h i (by omega))
+          | cases h
+
+/-- a unit chosen by the patched `NextJob` is the unit whose dependencies were checked -/
+theorem Chosen.stage_eq {fix : Patch} {s s' : Stages} {u : WorkUnit} {r : Range} (hd : fix.deps = true)
+    (h : Chosen fix s s' u r) : ∃ s0, PStep s s0 ∧ s0.WF ∧ dependenciesCompleted fix s0 u = true ∧
+      s0.markSegmentScheduled u = .ok s' := by
+  obtain ⟨s0, k, hp0, hw0, hk, hpk, hdeps, hfirst, hlast, hr, hne, hor, hpu, hlt, hs'⟩ := h
+  refine ⟨s0, hp0, hw0, ?_, hs'⟩
+  rcases hor with e | ⟨hk1, hfp, hal⟩
+  · have : u = ⟨u.seg, k⟩ := by cases u; simp at e; simp [e]
+    rw [this]; exact hdeps
+  · -- the first Pending unit of the column is the top one: the units below are Completed/NoOp/Shadowed/Present
+    have hj := firstPending_some s0 u.seg _ _ _ hfp
+    have hmin := firstPending_min s0 u.seg _ _ _ hfp
+    have hle : u.stage ≤ k := by
+      apply Nat.le_of_not_lt; intro hc
+      exact hmin k (Nat.zero_le _) hc hpk
+    have : u.stage = k := by
+      apply Nat.le_antisymm hle
+      apply Nat.le_of_not_lt; intro hc
+      -- u.stage < k: its state is Pending, but the dependency check of (seg, k) saw it not Pending
+      unfold dependenciesCompleted at hdeps
+      simp only [hd, if_true] at hdeps
+      split at hdeps
+      · omega
+      · rcases depsLoopFix_spec s0 u.seg k hdeps u.stage hc with hb | ⟨_, hst⟩
+        · -- below the stage's first segment an allocated cell reads NoOp
+          have hne' : s0.stages ≠ [] := by
+            intro hc'; have : s0.nStages = 0 := by simp [Stages.nStages, hc']
+            omega
+          have := first_le_of_pending_allocated s0 u.seg u.stage hpu hne' hal
+          omega
+        · rw [hpu] at hst; simp at hst
+    have hu : u = ⟨u.seg, k⟩ := by cases u; simp at this; simp [this]
+    rw [hu]; exact hdeps
+
 end Stages
 end SV.Stg
